@@ -169,14 +169,15 @@ def cpre : CKind → Val → Option Val
     match v with
     | .list vs =>
       match mapOpt valBytes? vs with
-      | some bs => if strictSorted bs then some (.list vs) else none
+      | some bs => if sortUniq bs = bs then some (.list vs) else none   -- the set's sorted listing
       | none => none
     | _ => none
   | .dsMap, v =>
     match v with
     | .list [r, i, .list signs] =>
       match mapOpt valPair? signs with
-      | some ps => if keysSorted ps && ps.all (fun p => p.1.length = 32) then some (.list [r, i, .list signs]) else none
+      | some ps =>   -- a map listing: sorted by 32-byte key, one entry per key
+        if ps.foldl (fun acc p => mapInsert (toHash32 p.1) p.2 acc) [] = ps then some (.list [r, i, .list signs]) else none
       | none => none
     | _ => none
 
@@ -278,21 +279,21 @@ def encT (ty : Ty) (v : Val) : Option (List UInt8) := (enc ty v).map Rlp.encode
 
 /-! ### static predicates on schemas (decidable, evaluated on the generated table) -/
 
-/-- The decoder accepts exactly one byte string per value. -/
-def Canonical : Ty → Bool
-  | .uint _ | .bigint | .bool | .bytes | .fixed _ | .snil => true
-  | .list t => Canonical t
-  | .scons f r => Canonical f && Canonical r
-  | .struct fs => Canonical fs
-  | .ptr t => Canonical t
-  | .nilptr _ => false                                   -- accepts both 0x80 and 0xC0 as nil
-  | .custom k w => (k == .ident || k == .receiptStatus) && Canonical w
-
 /-- Field lists are well-shaped (struct bodies are cons lists; cons cells only under `struct`). -/
 def isFields : Ty → Bool
   | .snil => true
   | .scons _ r => isFields r
   | _ => false
+
+/-- The decoder accepts exactly one byte string per value. -/
+def Canonical : Ty → Bool
+  | .uint _ | .bigint | .bool | .bytes | .fixed _ | .snil => true
+  | .list t => Canonical t
+  | .scons f r => Canonical f && Canonical r
+  | .struct fs => Canonical fs && isFields fs
+  | .ptr t => Canonical t
+  | .nilptr _ => false                                   -- accepts both 0x80 and 0xC0 as nil
+  | .custom k w => (k == .ident || k == .receiptStatus) && Canonical w
 
 /-- No encoding of a non-nil `nilptr` element is empty (else it would decode as nil): the element is a
 non-empty fixed array (the only use in /repo: `*common.Address`). -/
